@@ -253,6 +253,59 @@ def handleExec (j : Json) : Option Json := do
   some (Json.mkObj [("out", outName r.1), ("pos", Json.num r.2.pos), ("out_del", outName r2.1), ("pos_del", Json.num r2.2.pos),
                     ("kept", Json.num (C16.deleteUnreachable ss).length)])
 
+partial def parseVal (j : Json) : Option C15.Val := do
+  let a ← getArr? j
+  match (← getStr? a[0]!) with
+  | "int" => some (.int (← getInt? a[1]!)) | "bool" => some (.bool (← getBool? a[1]!)) | "none" => some .none
+  | "str" => some (.str (← getStr? a[1]!))
+  | "tuple" => some (.tuple (← (← getArr? a[1]!).toList.mapM parseVal))
+  | "list" => some (.list (← (← getArr? a[1]!).toList.mapM parseVal))
+  | _ => none
+
+partial def parseExpr (j : Json) : Option C15.Expr := do
+  let a ← getArr? j
+  let es (k : Nat) : Option (List C15.Expr) := do (← getArr? a[k]!).toList.mapM parseExpr
+  let binop (s : String) : Option C15.BinOp := match s with
+    | "add" => some .add | "sub" => some .sub | "mul" => some .mul | "floordiv" => some .floordiv | "mod" => some .mod | _ => none
+  let cmpop (s : String) : Option C15.CmpOp := match s with
+    | "eq" => some .eq | "ne" => some .ne | "lt" => some .lt | "le" => some .le | "gt" => some .gt | "ge" => some .ge | _ => none
+  let builtin (s : String) : Option C15.Builtin := match s with
+    | "len" => some .len | "abs" => some .abs | "bool" => some .bool | "int" => some .int | "min" => some .min | "max" => some .max | _ => none
+  match (← getStr? a[0]!) with
+  | "int" => some (.int (← getInt? a[1]!)) | "bool" => some (.bool (← getBool? a[1]!)) | "none" => some .none
+  | "str" => some (.str (← getStr? a[1]!)) | "name" => some (.name (← getNat? a[1]!))
+  | "tuple" => some (.tuple (← es 1)) | "list" => some (.list (← es 1))
+  | "not" => some (.not (← parseExpr a[1]!)) | "neg" => some (.neg (← parseExpr a[1]!))
+  | "bin" => some (.bin (← (getStr? a[1]!) >>= binop) (← parseExpr a[2]!) (← parseExpr a[3]!))
+  | "cmp" => some (.cmp (← parseExpr a[1]!) (← (← getArr? a[2]!).toList.mapM (fun o => (getStr? o) >>= cmpop)) (← es 3))
+  | "and" => some (.and (← es 1)) | "or" => some (.or (← es 1))
+  | "call" => some (.call (← (getStr? a[1]!) >>= builtin) (← es 2))
+  | "othercall" => some (.othercall (← getNat? a[1]!) (← es 2))
+  | _ => none
+
+partial def valRepr : C15.Val → String
+  | .int n => toString n | .bool b => if b then "True" else "False" | .none => "None"
+  | .str s => "'" ++ s ++ "'"
+  | .tuple [v] => "(" ++ valRepr v ++ ",)"
+  | .tuple vs => "(" ++ ", ".intercalate (vs.map valRepr) ++ ")"
+  | .list vs => "[" ++ ", ".intercalate (vs.map valRepr) ++ "]"
+
+def handleLit (j : Json) : Option Json := do
+  let e ← (field? j "e") >>= parseExpr
+  let lit := match C15.litValue e with
+    | .known v => Json.mkObj [("r", "known"), ("v", valRepr v)]
+    | .unknown => Json.mkObj [("r", "unknown")]
+    | .oof => Json.mkObj [("r", "oof")]
+  let envJ ← (field? j "env") >>= getArr?
+  let envL ← envJ.toList.mapM parseVal
+  let env : C15.Env := fun i => envL[i]?
+  let pe := match C15.ev false env e with
+    | .ok v => Json.mkObj [("r", "ok"), ("v", valRepr v)]
+    | .err => Json.mkObj [("r", "err")]
+    | .unk => Json.mkObj [("r", "unk")]
+    | .oof => Json.mkObj [("r", "oof")]
+  some (Json.mkObj [("lit", lit), ("pyeval", pe)])
+
 def dispatch (j : Json) : Json :=
   match (field? j "suite") >>= getStr? with
   | some "sched" => (handleSched j).getD bad
@@ -266,6 +319,7 @@ def dispatch (j : Json) : Json :=
   | some "lru" => (handleLru j).getD bad
   | some "blocking" => (handleBlocking j).getD bad
   | some "exec" => (handleExec j).getD bad
+  | some "lit" => (handleLit j).getD bad
   | _ => bad
 
 partial def loop (h : IO.FS.Stream) (out : IO.FS.Stream) : IO Unit := do
